@@ -223,6 +223,15 @@ class Result(dict):
     pass
 
 
+def _defined_at(it, val):
+    try:
+        nz = numeric([np.array(it.nonzero, dtype=object)], val)[0] if it.nonzero else np.ones(1)
+        nn = numeric([np.array(it.nonneg, dtype=object)], val)[0] if it.nonneg else np.ones(1)
+        return bool(np.all(np.isfinite(nz)) and np.all(nz != 0) and np.all(np.isfinite(nn)) and np.all(nn >= 0))
+    except Exception:
+        return False
+
+
 class Obligation:
     name: str
 
@@ -294,7 +303,7 @@ class EqObligation(Obligation):
         spec_l = flatten_out(spec(*syms))
         res["sample"] = _sample(impl_l)
         # 2. interpreter cross-check against native execution (trusted-base sanity, every run)
-        self._crosscheck(res, b, impl_l, seed)
+        self._crosscheck(res, b, impl_l, seed, it)
         if res["crosscheck"] == "mismatch":
             res["status"] = "error"
             return
@@ -305,6 +314,10 @@ class EqObligation(Obligation):
             res["detail"] = (f"result structure differs: impl {[a.shape for a in impl_l]} "
                              f"vs contract {[s.shape for s in spec_l]}")
             self._replay(res, b, spec, None, seed)
+            return
+        # 3b. definedness: every division / square root the code performs is either performed by the contract too
+        #     (same partiality) or proved defined under the precondition
+        if not self._definedness(res, b, spec, spec_l, it, pre, seed):
             return
         # 4. ring normal form, then SMT
         diff = [(a, s) for A, S in zip(impl_l, spec_l) for a, s in zip(A.reshape(-1), S.reshape(-1)) if a != s]
@@ -370,6 +383,58 @@ class EqObligation(Obligation):
                 res["status"] = "error"
                 res["detail"] = "vacuity guard: the deliberately wrong postcondition verified"
 
+    def _definedness(self, res, b, spec, spec_l, it, pre, seed):
+        import z3
+        sdom = P.dom_conditions([q for S in spec_l for q in S.reshape(-1)])
+        skeys = {P.norm_cond(k, q) for k, q in sdom}
+        need, seenk = [], set()
+        for k, q in [("nz", q) for q in it.nonzero] + [("nn", q) for q in it.nonneg]:
+            if q.is_const():
+                continue
+            nk = P.norm_cond(k, q)
+            if nk in skeys or nk in seenk:
+                continue
+            seenk.add(nk)
+            need.append((k, q))
+        res["definedness"] = {"shared_with_contract": len(skeys), "to_prove": len(need), "proved": 0}
+        if not need:
+            return True
+        t0 = time.time()
+        low = smt.Lowering()
+        neg = [(low.poly(q) == 0) if k == "nz" else (low.poly(q) < 0) for k, q in need]
+        assum = [(p(low) if callable(p) else p) for p in pre]
+        assum += [(low.poly(q) != 0) if k == "nz" else (low.poly(q) >= 0) for k, q in sdom]
+        # conditions proved earlier in program order may be used for the later ones (the earlier failure is reported first)
+        s = z3.Solver()
+        s.set("timeout", 8000)
+        for a in assum + low.side:
+            s.add(a)
+        s.add(z3.Or(neg))
+        r = s.check()
+        res["solver_s"] += time.time() - t0
+        if r == z3.unsat:
+            res["definedness"]["proved"] = len(need)
+            return True
+        bad = need[0]
+        model = None
+        if r == z3.sat:
+            model = smt._model(s.model(), low)
+        kind = {"nz": "a division by", "nn": "a square root / logarithm of"}[bad[0]]
+        if r != z3.sat:
+            res["definedness"]["undecided"] = len(need)
+        self._replay(res, b, spec, model, seed)
+        if res.get("replay", {}).get("native_disagrees"):
+            res["status"] = "violated"
+            res["failure"] = "definedness"
+            res["detail"] = (f"the code performs {kind} a quantity that the precondition does not keep "
+                             f"{'non-zero' if bad[0] == 'nz' else 'non-negative'} and the contract's value does not involve: {_cut(bad[1])}")
+            return False
+        res.pop("replay", None)
+        if r == z3.sat:
+            # a counter-model exists but the real code agrees with the contract there (e.g. 0/0 guarded by a select)
+            res["definedness"]["not_reproduced"] = len(need)
+        return True
+
     # -- native execution helpers
     def _native(self, b, val):
         arrays = [jnp.asarray(a, dtype=i.example().dtype) for a, i in zip(val.arrays, b["inputs"])]
@@ -377,9 +442,17 @@ class EqObligation(Obligation):
             out = b["fn"](*arrays)
         return [np.asarray(x, dtype=float) for x in jax.tree_util.tree_leaves(out)]
 
-    def _crosscheck(self, res, b, impl_l, seed):
+    def _crosscheck(self, res, b, impl_l, seed, it=None):
         try:
-            val = Valuation(b["inputs"], seed + 1)
+            # sample inside the code's own domain of definedness (its divisions / square roots); whether that domain
+            # is as large as the contract's is the definedness obligation's business, not the cross-check's
+            for k in range(6):
+                val = Valuation(b["inputs"], seed + 1 + 977 * k)
+                if it is None or _defined_at(it, val):
+                    break
+            else:
+                res["crosscheck"] = "skipped: no sampled valuation inside the code's domain of definedness"
+                return
             nat = self._native(b, val)
             sym = numeric(impl_l, val)
             ok = len(nat) == len(sym) and all(close(x, y, 1e-6, 1e-8) for x, y in zip(nat, sym))
